@@ -547,4 +547,66 @@ def item_lostmap(repo, out):
             raise TranslateError('ChunkStoreVisFlagsWeights.__init__: `%s` not found' % frag)
 
 
-ITEMS = [item_prune, item_fill, item_getters, item_prune_head, item_preselect, item_lostmap]
+def item_options(repo, out):
+    """The processing options between the chunk store and the user that see zero-filled (lost) data:
+    Van Vleck lookup table (the anchor at zero that keeps a zero-filled autocorrelation zero), where the
+    correction and the weight scaling sit in ChunkStoreVisFlagsWeights.__init__ (after _default_zero)."""
+    rel = 'katdal/van_vleck.py'
+    fn = _mfunc(_parse(repo, rel), 'autocorr_lookup_table', rel)
+    firsts = {}
+    for name in ('sxx_table', 'rxx_table'):
+        a = [n for n in _body(fn) if isinstance(n, ast.Assign) and ast.unparse(n.targets[0]) == name]
+        v = a[0].value if len(a) == 1 else None
+        if not (isinstance(v, ast.Subscript) and ast.unparse(v.value) == 'np.r_' and isinstance(v.slice, ast.Tuple)
+                and len(v.slice.elts) >= 2):
+            raise TranslateError('autocorr_lookup_table: %s is not np.r_[first, ...]' % name)
+        c = v.slice.elts[0]
+        if not (isinstance(c, ast.Constant) and isinstance(c.value, (int, float)) and not isinstance(c.value, bool)
+                and float(c.value) == int(c.value)):
+            raise TranslateError('autocorr_lookup_table: %s does not start with a constant anchor (starts with %s)'
+                                 % (name, ast.unparse(c)))
+        firsts[name] = int(c.value)
+    ret = _body(fn)[-1]
+    if not (isinstance(ret, ast.Return) and isinstance(ret.value, ast.Tuple) and len(ret.value.elts) == 2):
+        raise TranslateError('autocorr_lookup_table: return statement changed')
+    fac = []
+    for el, name in zip(ret.value.elts, ('sxx_table', 'rxx_table')):
+        if not (isinstance(el, ast.BinOp) and isinstance(el.op, ast.Mult) and isinstance(el.left, ast.Constant)
+                and float(el.left.value) == int(el.left.value) and ast.unparse(el.right) == name):
+            raise TranslateError('autocorr_lookup_table: returns %s' % ast.unparse(ret))
+        fac.append(int(el.left.value))
+    out.append('(* van_vleck.autocorr_lookup_table: first node (quantised power, true power) of the table np.interp reads *)')
+    out.append('Definition gen_vv_anchor : Z * Z := (%s, %s).' % (coq_Z(fac[0] * firsts['sxx_table']),
+                                                              coq_Z(fac[1] * firsts['rxx_table'])))
+    # where the options sit: after the zero fill
+    rel = 'katdal/vis_flags_weights.py'
+    tree = _parse(repo, rel)
+    init = _method(tree, 'ChunkStoreVisFlagsWeights', '__init__', rel)
+    src = _src(_body(init))
+    k = src.index("vis = darray['correlator_data']") if "vis = darray['correlator_data']" in src else -1
+    want = ["vis = darray['correlator_data']",
+            "if van_vleck == 'autocorr':\n    vis = correct_autocorr_quantisation(vis, corrprods)\nelif van_vleck != 'off':\n"
+            "    raise ValueError(f\"The van_vleck parameter should be one of ['off', 'autocorr'], got '{van_vleck}' instead\")",
+            "stored_weights = darray['weights'] * darray['weights_channel'][..., np.newaxis]",
+            "if corrprods is not None:\n    if stored_weights_are_scaled:\n        weights = stored_weights\n"
+            "        unscaled_weights = _scale_weights(vis, stored_weights, corrprods, divide=False)\n    else:\n"
+            "        weights = _scale_weights(vis, stored_weights, corrprods, divide=True)\n        unscaled_weights = stored_weights\n"
+            "else:\n    if not stored_weights_are_scaled:\n"
+            "        raise ValueError('Stored weights are unscaled but no corrprods are provided')\n"
+            "    weights = stored_weights\n    unscaled_weights = None",
+            'VisFlagsWeights.__init__(self, vis, flags, weights, unscaled_weights)']
+    if k < 0 or src[k:] != want:
+        raise TranslateError('ChunkStoreVisFlagsWeights.__init__: the option handling after the zero fill is %s' % (src[k:] if k >= 0 else None))
+    out.append('(* ChunkStoreVisFlagsWeights: van_vleck and the weight scaling act on the zero-filled arrays; weights are divided by'
+               ' the autocorrelations iff corrprods are given and the stored weights are not scaled *)')
+    out.append('Definition gen_options_after_zero_fill : bool := true.')
+    out.append('Definition gen_weights_divided (have_corrprods stored_scaled : bool) : bool := andb have_corrprods (negb stored_scaled).')
+    ca = _mfunc(tree, 'correct_autocorr_quantisation', rel)
+    calls = [n for n in ast.walk(ca) if isinstance(n, ast.Call) and ast.unparse(n.func) == 'np.interp']
+    if len(calls) != 1 or len(calls[0].args) != 3 or calls[0].keywords or \
+            [ast.unparse(a) for a in calls[0].args[1:]] != ['quantised_autocorr_table', 'true_autocorr_table']:
+        raise TranslateError('correct_autocorr_quantisation: np.interp call changed')
+    out.append('Definition gen_vv_interp_clamps : bool := true.   (* np.interp without left= / right=: clamps outside the table *)')
+
+
+ITEMS = [item_prune, item_fill, item_getters, item_prune_head, item_preselect, item_lostmap, item_options]
